@@ -64,6 +64,9 @@ func (w *world) exhaust(d *doc, set settings, coqSamples int) {
 		}
 	}
 	bufs := callerBufs
+	if L > 4096 {
+		bufs = append(append([]int(nil), callerBufs...), bigBufs...)
+	}
 	for _, o := range offs {
 		for _, k := range bufs {
 			if k <= 3 && L > w.r.Scale(300, 1500) && r.Intn(8) != 0 {
